@@ -884,7 +884,9 @@ def run_history_op(case, world, idx, op, results, rep, cpus):
             vs.append(V('valid_completes', ['C15'], 'C15 %s hang' % comp,
                         'valid call exceeded the step cap: %s' % out.exc_msg))
         else:
-            props = ['C15']
+            # a valid call that raises returns none of what the entry point's
+            # own property promises, besides breaking C15's second half
+            props = ['C15'] + home_props(world, op)
             if _has_missing(world, op):
                 props.append('C08')
             vs.append(V('valid_completes', props,
@@ -979,6 +981,20 @@ def run_history_op(case, world, idx, op, results, rep, cpus):
             vs.extend(run_variant(case, world, idx, op, out, var, results,
                                   rep, cpus))
     return vs
+
+
+def home_props(world, op):
+    k = op['op']
+    if k == 'join':
+        return ['C03'] if op['measure'] == 'EDIT_DISTANCE' else ['C01', 'C02']
+    if k in ('filter_tables', 'filter_pair'):
+        fs = world.case['filters'].get(op['filter'], {})
+        return ['C04'] + (['C06'] if fs.get('kind') == 'OverlapFilter' else [])
+    if k == 'filter_candset':
+        return ['C04', 'C06']
+    if k == 'apply_matcher':
+        return ['C05']
+    return []
 
 
 def _has_missing(world, op):
